@@ -12,6 +12,6 @@ CONSTANTS
   MaxSnaps = 2
   MaxRestarts = 1
 INVARIANTS NoTombLive NoRecLive GroupsValid GroupsFine EpochsFine FlagsConsistent
-PROPERTIES A_RS_Streams A_RS_RoEff A_RS_GroupMembers A_NoDataLoss A_NoResurrection A_NoApplyError A_RS_Started
+PROPERTIES A_RS_Streams A_RS_RoEff A_RS_GroupMembers A_RS_GroupEpoch A_NoDataLoss A_NoResurrection A_NoApplyError A_RS_Started
 VIEW MCView
 CHECK_DEADLOCK FALSE
